@@ -95,7 +95,7 @@ REQUIRED_REACH = [
     "collection:dict-from-get_dofs(dict)",
     "split-given-as:I", "split-given-as:D",
     "matrix:assembled-on-subdomain", "matrix:assembled-on-boundary",
-    "overwrite:on", "overwrite:off", "readonly-pass",
+    "overwrite:on", "overwrite:off", "readonly-pass", "unsymmetric-pencil",
     "solve:eigen-default-arpack", "solve:linear-default",
 ]
 ASSUMPTIONS = [
@@ -1027,16 +1027,19 @@ def fam_random_eigen(ctx, k):
     # rows without entries: in A and M, or only in one of them
     where = ["both", "A", "M", "both"][k % 4]
     layout = str(rng.choice(["canonical", "unsorted", "duplicates"]))
-    A = gen_matrix(rng, n, symmetric=True, positive=rng.random() < 0.5, empty=empty if where in ("both", "A") else (),
+    unsym = (k % 5 == 4)   # unsymmetric pencils (mass plus convection): reduction and kept equations, general dense eig
+    A = gen_matrix(rng, n, symmetric=not unsym, positive=rng.random() < 0.5, empty=empty if where in ("both", "A") else (),
                    zeros_frac=float(rng.choice([0, 0.1])), layout=layout)
-    M = gen_matrix(rng, n, symmetric=True, positive=True, empty=empty if where in ("both", "M") else (),
+    M = gen_matrix(rng, n, symmetric=not unsym, positive=True, empty=empty if where in ("both", "M") else (),
                    zeros_frac=float(rng.choice([0, 0.1])), layout=str(rng.choice(["canonical", "unsorted"])))
+    if unsym:
+        ctx.reached("unsymmetric-pencil")
     xkind = ["none", "zero-on-D", "values"][k % 3]
     x = make_x(rng, n, Dset, xkind, np.float64)
     sD = array_split(rng, n, Dset, "D", ARRAY_STYLES[(k + 1) % len(ARRAY_STYLES)])
     sI = array_split(rng, n, Dset, "I", ARRAY_STYLES[(k // 3) % len(ARRAY_STYLES)])
     tag = dict(n=n, rhs_kind="matrix", rows_without_entries=empty, empty_in=where, x_kind=xkind, layout=layout)
-    run_linear_ops(ctx, A, M, x, [sD, sI] if k % 2 else [sI, sD], tag, rot=k, sym=True)
+    run_linear_ops(ctx, A, M, x, [sD, sI] if k % 2 else [sI, sD], dict(tag, symmetric=not unsym), rot=k, sym=not unsym)
     ctx.sample({**tag, "D": Dset}, per_family=1)
 
 
